@@ -18,8 +18,8 @@ use refmodel::tcodec::{Envelope, Knobs, Proto, encode_envelope, encode_with};
 use refmodel::tval::{Gen, GenCfg, TT, TVal, directed_values};
 use serde_json::{Value, json};
 
-use crate::codecs::{Reader, WP};
-use crate::interp::{Ops, ReadErr, read_val, read_val_async, to_ttype};
+use pcodec::codecs::{Reader, WP};
+use pcodec::interp::{Ops, ReadErr, read_val, read_val_async, to_ttype};
 
 pub struct C09;
 
